@@ -56,6 +56,30 @@ Theorem C14_build_total_strings :
 Proof. exact build_total_strings. Qed.
 Print Assumptions C14_build_total_strings.
 
+(* the JSON round trip and the independence of order and grouping, on printed path strings *)
+Theorem C14_json_roundtrip_strings :
+  forall env d black ps gs m,
+  well_typed env d ps = true -> elab_all env d ps = Some gs -> no_conflict gs = true -> gs <> [] ->
+  forallb (json_ok (switch_ft env d)) gs = true ->
+  new_mask env d black (map print_path ps) = Ok m ->
+  exists m', of_json (to_json m) = Ok m' /\
+    (forall q, observe (Some m') q = observe (Some m) q) /\
+    (forall q, walk (Some m') q = walk (Some m) q) /\
+    to_json m' = to_json m.
+Proof. exact json_roundtrip_strings. Qed.
+Print Assumptions C14_json_roundtrip_strings.
+
+Theorem C14_order_irrelevant_strings :
+  forall env d black ps gs m ps' gs',
+  well_typed env d ps = true -> well_typed env d ps' = true ->
+  elab_all env d ps = Some gs -> elab_all env d ps' = Some gs' ->
+  in_domain black gs = true -> in_domain black gs' = true ->
+  same_set (path_set gs) (path_set gs') = true ->
+  new_mask env d black (map print_path ps) = Ok m ->
+  exists m', new_mask env d black (map print_path ps') = Ok m' /\ forall q, walk (Some m) q = walk (Some m') q.
+Proof. exact order_irrelevant_strings. Qed.
+Print Assumptions C14_order_irrelevant_strings.
+
 (* ---- all_sound: the answer of All() on the sub mask a passing query walk reaches is what the
    path set prescribes (white and black lists; black: the list is not the root path "$") *)
 Theorem C14_all_sound :
